@@ -105,6 +105,7 @@ func isEffectFree(name string) bool {
 
 func (f *Frame) execCall(v ssa.Value, c *ssa.CallCommon, instr ssa.Instruction) {
 	res := f.call(c, instr.Pos(), v)
+	f.noteLastCall(c, res)
 	if v == nil {
 		return
 	}
@@ -476,6 +477,9 @@ func (f *Frame) applyContract(ct *FuncContract, fn *ssa.Function, args []Val, c 
 	for _, en := range ct.Ensures {
 		if mentionsActivationLocal(en.Expr) {
 			continue // speaks about the callee's own activation (its sends, its lock acquisitions): not usable by callers
+		}
+		if strings.HasPrefix(en.Label, "TRUSTED") {
+			vc.trust(fmt.Sprintf("assumed postcondition %s#%s: %s", callee, en.Label, en.Text))
 		}
 		t, err := env.evalBool(en.Expr)
 		if err != nil {
